@@ -16,7 +16,7 @@ DEMO1=$(PYTHONPATH="$TMP" /venv/bin/python "$D/demo.py" >/dev/null 2>&1; echo $?
 echo "seed $(basename "$(dirname "$D")")/$(basename "$D"): tests: $T | demo unchanged=$DEMO0 changed=$DEMO1"
 for C in "$@"; do
   S=$(date +%s)
-  OUT=$(VERIF_EVIDENCE_DIR="$TMP/.evidence" VERIF_REPO="$TMP" VERIF_SKIP_REPLAYS=1 VERIF_SEED="${VERIF_SEED:-1}" "$HERE/check" "$C" --tier "${TIER:-quick}" 2>&1); RC=$?
+  OUT=$(VERIF_EVIDENCE_DIR="$TMP/.evidence" VERIF_REPO="$TMP" VERIF_SKIP_REPLAYS=1 VERIF_MAX_ROUNDS=1 VERIF_SEED="${VERIF_SEED:-1}" "$HERE/check" "$C" --tier "${TIER:-quick}" 2>&1); RC=$?
   E=$(date +%s)
   case $RC in
     1) echo "  CAUGHT by $C in $((E-S))s: $(echo "$OUT" | grep -m1 bucket) $(echo "$OUT" | grep -m1 '  case' | cut -c1-200)";;
